@@ -440,6 +440,18 @@ where
         }
     }
 
+    /// Returns the edges that were created by calling `connect` on this
+    /// node. Every edge is owned by exactly one of its endpoints, so the
+    /// owned edges of all nodes of a graph list each edge exactly once.
+    pub(crate) fn owned_edges(&self) -> Vec<Edge<K, N, E>> {
+        let adjacent = self.inner.2.borrow();
+        let mut edges = Vec::new();
+        while let Some((n, e)) = adjacent.get_outbound(edges.len()) {
+            edges.push(Edge(self.clone(), n.upgrade().unwrap(), e.clone()));
+        }
+        edges
+    }
+
     pub fn sizeof(&self) -> usize {
         std::mem::size_of::<Node<K, N, E>>()
             + std::mem::size_of::<K>()
